@@ -413,6 +413,8 @@ def _run(report):
     report.extra["inlined_closures"] = sorted(set().union(*[e.inlined for e in execs]))
     report.extra["callee_contracts_used"] = sorted(set().union(*[e.used_contracts for e in execs]))
     report.extra["library_models_used"] = sorted(set().union(*[e.used_models for e in execs]))
+    from . import c04 as _c04
+    _c04.shared_callee_obligations(report, "C08")
     from ..contracts import audit
     audit.run(report)
     # executable contract of assert_equal / approx_equal_quantities on the real functions (bounded audit of the model)
